@@ -288,6 +288,168 @@ def rule_delta_cap(eng, rep, rule="C18-3.growth-of-delta-is-capped"):
     rep.not_decided.append("C18-3 with a regulariser: `/ tau` can enlarge delta and no static bound on tau is available")
 
 
+def _param_range(eng, typed, cfg, at_ast, e):
+    """(key, lower, upper) if e is a parameter read -- directly or through a local with one reaching definition -- else None"""
+    if isinstance(e, ast.Name):
+        try:
+            defs = cfg.defs_reaching(at_ast, e.id)
+        except Exception:
+            defs = []
+        if len(defs) == 1 and isinstance(cfg.ast_of(list(defs)[0]), ast.Assign):
+            e = cfg.ast_of(list(defs)[0]).value
+    if isinstance(e, ast.Call):
+        key = param_key(eng, e)
+        tup = typed.get(key)
+        if key is not None and tup is not None and len(tup.elts) == 4:
+            return key, const_value(tup.elts[2]), const_value(tup.elts[3])
+    return None
+
+
+def rule_rho_between_rhoend_and_rhobeg(eng, rep, rule="C18-8.rho-stays-between-rhoend-and-rhobeg"):
+    """rhoend <= rho, rho > 0 and 'rho never increases within a run', decided by interval reasoning over the cases of reduce_rho and the ranges of the
+    parameter table (all bounds of the table are inclusive):
+      * every call of reduce_rho is dominated by the true outcome of `rho > rhoend`  (so ratio = rho / rhoend > 1 on entry);
+      * in each case of the if-chain over `ratio`, new_rho / rhoend is bounded below by 1 and new_rho <= rho;
+      * a restart sets rho := rhobeg and rhoend := scale * rhoend, which keeps 0 < rhoend <= rhobeg only for 0 < scale <= 1."""
+    import math
+    defaults, typed = param_registry(eng)
+    rr = eng.fn("controller.Controller.reduce_rho")
+    cfg = eng.cfg(rr)
+    selfn = rr.posparams[0]
+    # (1) precondition at the call sites
+    nsites = 0
+    for ci in eng.calls_to(rr.fid):
+        fi = ci.caller
+        ccfg = eng.cfg(fi)
+        gs = guards_of(ccfg, ccfg.cfg_node(ci.node))
+        nsites += 1
+        if any(a.op == "lt" and "rhoend" in ekey(a.lhs) and ekey(a.rhs).endswith("rho") for (_b, a) in gs):
+            rep.ok(rule, eng.where(fi, ci.node), "reduce_rho is called under `rho > rhoend`")
+        else:
+            rep.bad(rule, eng.where(fi, ci.node), "%s|reduce-rho-without-rho-gt-rhoend" % fi.fid, "reduce_rho is called without `rho > rhoend` having held: its case analysis assumes ratio > 1")
+    rep.require_count(rule, "call sites of reduce_rho", nsites, 2)
+    # (2) the cases
+    ratio = None
+    for n, d in cfg.g.nodes(data=True):
+        st = d["ast"]
+        if d["kind"] == "stmt" and isinstance(st, ast.Assign) and isinstance(st.targets[0], ast.Name) and isinstance(st.value, ast.BinOp) and isinstance(st.value.op, ast.Div) \
+                and ekey(st.value.left) == "%s.rho" % selfn and ekey(st.value.right) == "%s.rhoend" % selfn:
+            ratio = st.targets[0].id
+    if ratio is None:
+        rep.unknown(rule, eng.where(rr), "`ratio = rho / rhoend` not found in reduce_rho")
+        return
+    rho_store = [d["ast"] for n, d in cfg.g.nodes(data=True) if d["kind"] == "stmt" and isinstance(d["ast"], ast.Assign) and ekey(d["ast"].targets[0]) == "%s.rho" % selfn]
+    if len(rho_store) != 1 or not isinstance(rho_store[0].value, ast.Name):
+        rep.unknown(rule, eng.where(rr), "expected a single `self.rho = <local>` in reduce_rho")
+        return
+    newvar = rho_store[0].value.id
+
+    def bounds(e, at_ast, lo, hi):
+        """(lower bound of e / rhoend, e <= old rho ?) for ratio in (lo, hi]; None if the expression is outside the rule's vocabulary"""
+        t = ekey(e)
+        if t == "%s.rhoend" % selfn:
+            return 1.0, lo >= 1.0
+        if isinstance(e, ast.BinOp) and isinstance(e.op, ast.Mult):
+            for x, y in ((e.left, e.right), (e.right, e.left)):
+                if ekey(y) == "%s.rhoend" % selfn and isinstance(x, ast.Call) and ekey(x.func).split(".")[-1] == "sqrt" and len(x.args) == 1 and ekey(x.args[0]) == ratio:
+                    return math.sqrt(lo), lo >= 1.0                 # sqrt(r) <= r  iff  r >= 1
+                if ekey(y) == "%s.rho" % selfn:
+                    c = const_value(x)
+                    if c is not None:
+                        return c * lo, c <= 1.0
+                    pr = _param_range(eng, typed, cfg, at_ast, x)
+                    if pr is not None and pr[1] is not None:
+                        return pr[1] * lo, pr[2] is not None and pr[2] <= 1.0
+        if isinstance(e, ast.Call) and isinstance(e.func, ast.Name) and e.func.id in ("max", "min") and len(e.args) == 2:
+            a_, b_ = bounds(e.args[0], at_ast, lo, hi), bounds(e.args[1], at_ast, lo, hi)
+            if a_ is None or b_ is None:
+                return None
+            if e.func.id == "max":
+                return max(a_[0], b_[0]), a_[1] and b_[1]
+            return min(a_[0], b_[0]), a_[1] or b_[1]
+        return None
+
+    ncase = 0
+    for n, d in cfg.g.nodes(data=True):
+        st = d["ast"]
+        if not (d["kind"] == "stmt" and isinstance(st, ast.Assign) and isinstance(st.targets[0], ast.Name) and st.targets[0].id == newvar):
+            continue
+        ncase += 1
+        lo, hi = 1.0, float("inf")          # ratio > 1 on entry
+        okg = True
+        for (_b, a) in guards_of(cfg, n):
+            if a.op in ("le", "lt") and ekey(a.lhs) == ratio and const_value(a.rhs) is not None:
+                hi = min(hi, const_value(a.rhs))
+            elif a.op in ("le", "lt") and ekey(a.rhs) == ratio and const_value(a.lhs) is not None:
+                lo = max(lo, const_value(a.lhs))
+            else:
+                okg = False
+        site = eng.where(rr, st)
+        bd = bounds(st.value, st, lo, hi)
+        if not okg or bd is None:
+            rep.unknown(rule, site, "case `%s` of reduce_rho is outside the rule's vocabulary" % short(st))
+            continue
+        lower, noninc = bd
+        if lower >= 1.0 and noninc:
+            rep.ok(rule, site, "ratio in (%g, %g]: `%s` is >= rhoend (factor >= %.4g) and <= the old rho" % (lo, hi, short(st.value, 50), lower))
+        elif lower < 1.0:
+            rep.bad(rule, site, "controller.Controller.reduce_rho|new-rho-below-rhoend|%s" % short(st.value, 30),
+                    "for ratio in (%g, %g] the new rho `%s` is only known to be >= %.4g * rhoend with the ranges of the parameter table: rho can fall below rhoend (and to 0), "
+                    "the run then stops with 'rho has reached rhoend' at rho < rhoend and the diagnostic table records rho < rhoend" % (lo, hi, short(st.value, 50), lower))
+        else:
+            rep.bad(rule, site, "controller.Controller.reduce_rho|new-rho-can-increase|%s" % short(st.value, 30), "the new rho `%s` can exceed the old rho" % short(st.value, 50))
+    rep.require_count(rule, "cases of reduce_rho", ncase, 3)
+    # (3) restarts: rhoend := scale * rhoend with rho := rhobeg
+    nres = 0
+    seen = set()
+    for fi in eng.prog.functions.values():
+        if fi.is_lambda:
+            continue
+        fcfg = None
+        for node in eng.prog.own_nodes(fi):
+            if isinstance(node, ast.Assign) and any(ekey(t).split(".")[-1] == "rhoend" for t in node.targets) and isinstance(node.value, ast.BinOp) and isinstance(node.value.op, ast.Mult):
+                v = node.value
+                other = v.left if ekey(v.right).split(".")[-1] == "rhoend" else (v.right if ekey(v.left).split(".")[-1] == "rhoend" else None)
+                if other is None:
+                    continue
+                fcfg = fcfg or eng.cfg(fi)
+                pr = _param_range(eng, typed, fcfg, node, other)
+                nres += 1
+                if pr is None:
+                    rep.unknown(rule, eng.where(fi, node), "rhoend is rescaled by `%s`, which is not a parameter read" % short(other))
+                    continue
+                key, lo, hi = pr
+                if key in seen:
+                    continue
+                seen.add(key)
+                pos = _strictly_positive(eng, key, lo)
+                if hi is not None and hi <= 1.0 and pos:
+                    rep.ok(rule, "params.ParameterList.param_type [%s]" % key, "restart factor of rhoend lies in (0, 1]: 0 < rhoend <= rhobeg is kept, rho := rhobeg >= rhoend after a restart (%s)" % pos)
+                if hi is None or hi > 1.0:
+                    rep.bad(rule, "params.ParameterList.param_type [%s]" % key, "params|restart-factor-above-one|%s" % key,
+                            "'%s' may exceed 1 (table range [%s, %s]): after a restart rhoend = factor * rhoend can exceed rho = rhobeg, so the next run starts with rho < rhoend" % (key, lo, hi))
+                if not pos:
+                    rep.bad(rule, "params.ParameterList.param_type [%s]" % key, "params|restart-factor-zero|%s" % key,
+                            "'%s' = 0.0 is accepted (inclusive lower bound, no validation in solve): rhoend becomes 0 at the first restart and `rho / rhoend` in reduce_rho raises ZeroDivisionError out of solve" % key)
+    rep.require_count(rule, "rescalings of rhoend", nres, 2)      # at least the soft-restart and the hard-restart rescaling (today 19 statements)
+
+
+def _strictly_positive(eng, key, table_lower):
+    """the parameter cannot be 0: table lower bound > 0, or solve's validation block rejects `params(key) <= 0` with the input-error flag"""
+    if table_lower is not None and table_lower > 0:
+        return "table lower bound %s" % table_lower
+    solve = eng.fn("solver.solve")
+    cfg = eng.cfg(solve)
+    for n in cfg.nodes_of_kind("cond"):
+        at = atom_of(cfg.ast_of(n), True)
+        if at.op == "le" and isinstance(at.lhs, ast.Call) and param_key(eng, at.lhs) == key and const_value(at.rhs) == 0:
+            for m, e in cfg.succ(n):
+                st = cfg.ast_of(m)
+                if e["label"] is True and isinstance(st, ast.Assign) and ekey(st.targets[0]) == "exit_info" and "EXIT_INPUT_ERROR" in ekey(st.value):
+                    return "solve rejects values <= 0 with the input-error flag"
+    return None
+
+
 def rule_rhoend_single_source(eng, rep, rule="C18-5.one-source-of-truth-for-the-runs-rhoend"):
     """Controller.rhoend (read by reduce_rho) and solve_main's local rhoend (read by the rho > rhoend guards) must stay equal:
     every rescaling of one is mirrored, on every path, by the same rescaling of the other."""
@@ -531,13 +693,14 @@ def run(eng, rep):
                 "of rho and the parameter-table ranges of reduce_rho's factors (T1); every assignment to delta whose factors can exceed 1 is wrapped in "
                 "min(., 1e10); Controller.rhoend and solve_main's local rhoend are kept in lock-step (T4 stale copy); the diagnostic table receives exactly one "
                 "append per column per recorded iteration on every path, update_* touch only the last row, columns = documented columns (T3/T9).")
-    rep.not_decided += ["rho > 0 and rhoend <= rho (depend on parameter values)", "'best objective never increases' (values)", "2 <= npt <= max"]
-    rep.assumptions += ["rho >= 0", "rho <= rhobeg (follows from C18-2: every writer assigns rhobeg or a non-increasing update; the geometric-mean case of reduce_rho is assumed)"]
+    rep.not_decided += ["'best objective never increases' (values)", "2 <= npt <= max"]
+    rep.assumptions += ["rhobeg > rhoend > 0 on entry (validated by solve: C07-3 rows rhoend<=0, rhobeg<=rhoend)", "floating-point sqrt and multiplication are monotone (interval reasoning of C18-8 is over the reals)"]
     rule_delta_ge_rho(eng, rep)
     rule_rho_writers(eng, rep)
     rule_delta_cap(eng, rep)
     rule_table_shape(eng, rep)
     rule_rhoend_single_source(eng, rep)
+    rule_rho_between_rhoend_and_rhobeg(eng, rep)
     from .mirrorrule import rule_mirror
     rule_mirror(eng, rep, 'C18-6.bound-test-of-the-rho-reduction-criterion-is-symmetric', ['controller.Controller.done_with_current_rho'])
     from .c10 import rule_nruns
